@@ -110,7 +110,13 @@ def check(prop, ev, bounds=None, cvc5_cross=False):
             inconc.append(f"stdlib closure function drives its closure outside the four Runner methods: {badusers}")
     except Unencodable as e:
         inconc.append(f"unencodable (Runner): {e}")
-    import ctorlemmas, constlemmas
+    import ctorlemmas, constlemmas, typeinfolemmas
+    try:
+        tobls, tfns = typeinfolemmas.obligations(S)
+        obls = obls + tobls
+        fns = sorted(set(fns) | set(tfns))
+    except Unencodable as e:
+        inconc.append(f"unencodable (type_info lemma): {e}")
     try:
         cobls, cfns = ctorlemmas.obligations(S)
         kobls, kfns, assumed = constlemmas.obligations(S, {"array": (bounds or {}).get("array", 2)})
@@ -156,7 +162,9 @@ def check(prop, ev, bounds=None, cvc5_cross=False):
         lab = child_label(S.types.struct_fields(node if node not in ("AssignVariant",) else "Variant", o.ex.hint_mod) or [])
         res = None
         try:
-            if role.endswith(":constant-matches-runtime"):
+            if role.endswith(":ok-type-includes-default-kind"):
+                res = [(a, b, {}) for a, b in typeinfolemmas.battery()]
+            elif role.endswith(":constant-matches-runtime"):
                 node = role.split(":")[1]
                 res = [(a, b, {}) for a, b in constlemmas.battery(node)] or None
             elif role.endswith(":node-holds-the-given-subexpressions"):
